@@ -40,7 +40,9 @@ type ConfDoc struct {
 var confPluginNames = []string{"dns", "server_id", "file", "range", "router", "netmask", "lease_time", "mtu", "nbp", "prefix", "searchdomains", "sleep", "staticroute", "example", "my_plugin2", "x"}
 
 func confWord(rng *rand.Rand) string {
-	pool := []string{"10.0.0.1", "2001:db8::1", "leases.txt", "/var/lib/coredhcp/leases.db", "LL", "00:11:22:33:44:55", "autorefresh", "60s", "example.org", "255.255.255.0", "10.0.0.0/8,10.0.0.254", "tftp://10.0.0.5/boot.efi", "a-b_c", "x", "64"}
+	pool := []string{"10.0.0.1", "2001:db8::1", "leases.txt", "/var/lib/coredhcp/leases.db", "LL", "00:11:22:33:44:55", "autorefresh", "60s", "example.org", "255.255.255.0", "10.0.0.0/8,10.0.0.254", "tftp://10.0.0.5/boot.efi", "a-b_c", "x", "64",
+		// text that means something to shells, template engines or boot firmware - not to this loader
+		"http://10.0.0.1/boot.php?mac=${mac}&uuid=${uuid}", "${STATE_DIRECTORY}/leases.txt", "${HOME}", "$HOME/x", "%h/%n", "a$b", "{{.Name}}", "~/leases.txt"}
 	return pool[rng.Intn(len(pool))]
 }
 
